@@ -731,4 +731,160 @@ theorem write_cached_ok {L n : Nat} (hL : 0 < L) {u : Mmu} {mem flat : List Byte
         · exact hxz'
         · exact hu y (List.mem_append_right _ (List.mem_cons_of_mem _ h))
 
+/-- every address of a well-formed store's run has the base of the first one -/
+theorem run_base {L : Int} {memLen : Nat} {p : Word × Byte} {ps : List (Word × Byte)}
+    (hcons : consecutive p.1.toInt (p :: ps) 0 = true)
+    (hall : ∀ a ∈ (p :: ps).map (·.1), 0 ≤ a.toInt ∧ a.toInt.toNat < memLen ∧ base L a.toInt = base L p.1.toInt)
+    (z : Nat) (hz : p.1.toInt ≤ (z : Int) ∧ (z : Int) < p.1.toInt + ((p :: ps).length : Nat)) :
+    base L z = base L p.1.toInt ∧ z < memLen := by
+  have hi : ((z : Int) - p.1.toInt).toNat < (p :: ps).length := by omega
+  have hidx := consecutive_spec p.1.toInt (p :: ps) 0 hcons _ hi
+  have hm : ((p :: ps)[((z : Int) - p.1.toInt).toNat]'hi).1 ∈ (p :: ps).map (·.1) :=
+    List.mem_map_of_mem (List.getElem_mem _)
+  have := hall _ hm
+  rw [hidx] at this
+  have e : p.1.toInt + ((0 : Nat) : Int) + ((((z : Int) - p.1.toInt).toNat : Nat) : Int) = (z : Int) := by omega
+  rw [e] at this
+  exact ⟨this.2.2, by omega⟩
+
+/-- **uncached store**: when the line of a well-formed store is not resident, writing the bytes straight
+to memory keeps the pair coherent with the flat memory after the store; the cache is untouched. -/
+theorem write_uncached_ok {L n : Nat} (hL : 0 < L) {c : Cache} {mem flat : List Byte}
+    (hw : DWf L n c) (hc : Coh c.lines mem flat) (chs : List (Word × Byte))
+    (hst : storeOk L flat.length chs = true)
+    (hmiss : ∀ p ∈ chs, ∀ y ∈ c.lines, y.covers p.1.toInt = false) :
+    Coh c.lines (applyChanges mem chs) (applyChanges flat chs) := by
+  obtain ⟨p, ps, hchs, hcons, hall⟩ := storeOk_spec hst
+  subst hchs
+  have ha0 : 0 ≤ p.1.toInt := (hall p.1 (by simp)).1
+  have hlastb := run_base hcons hall
+  have hlen : p.1.toInt + ((0 : Nat) : Int) + ((p :: ps).length : Nat) ≤ (flat.length : Nat) := by
+    have := (hlastb (p.1.toInt.toNat + ps.length) (by simp only [List.length_cons]; omega)).2
+    simp only [List.length_cons]; omega
+  have hflat' := applyChanges_consecutive p.1.toInt ha0 (p :: ps) 0 flat hcons hlen
+  have hmem' := applyChanges_consecutive p.1.toInt ha0 (p :: ps) 0 mem hcons (by rw [hc.len]; exact hlen)
+  simp only [Int.natCast_zero, Int.add_zero] at hflat' hmem'
+  have hnot : ∀ y ∈ c.lines, ∀ z : Nat, y.covers z = true →
+      ¬ (p.1.toInt ≤ (z : Int) ∧ (z : Int) < p.1.toInt + ((p :: ps).length : Nat)) := by
+    intro y hy z hcz hin
+    have hyb := ((hw.lines y hy).covers_iff hL z (by omega)).mp hcz
+    have := ((hw.lines y hy).covers_iff hL p.1.toInt ha0).mpr (by rw [hyb, (hlastb z hin).1])
+    rw [hmiss p (by simp) y hy] at this; cases this
+  refine { len := by rw [applyChanges_length, applyChanges_length]; exact hc.len, cached := ?_, uncached := ?_ }
+  · intro y hy z hcz hz
+    rw [applyChanges_length] at hz
+    rw [hflat' z]
+    simp only [hnot y hy z hcz, if_false]
+    exact hc.cached y hy z hcz hz
+  · intro z hz hu
+    rw [applyChanges_length] at hz
+    rw [hflat' z, hmem' z]
+    by_cases hin : p.1.toInt ≤ (z : Int) ∧ (z : Int) < p.1.toInt + ((p :: ps).length : Nat)
+    · simp only [hin, and_self, if_true]
+    · simp only [hin, if_false]
+      exact hc.uncached z hz hu
+
+/-! ### the unit's operations (`Mmu` in, `Mmu` out; L1I untouched) -/
+
+/-- a non-negative address is in a resident line, or in none -/
+theorem resident_or_not {L n : Nat} (hL : 0 < L) {c : Cache} (hw : DWf L n c) (a : Int) (ha : 0 ≤ a) :
+    (∃ l ∈ c.lines, l.lo = base L a) ∨ (∀ y ∈ c.lines, y.covers a = false) := by
+  by_cases h : ∃ l ∈ c.lines, l.lo = base L a
+  · exact Or.inl h
+  · right
+    intro y hy
+    cases hcy : y.covers a with
+    | false => rfl
+    | true => exact absurd ⟨y, hy, ((hw.lines y hy).covers_iff hL a ha).mp hcy⟩ h
+
+/-- **every load returns the flat-memory bytes** (hit): all addresses in bounds and in one resident line -/
+theorem getFromL1D_hit {L n : Nat} (hL : 0 < L) {u : Mmu} {mem flat : List Byte}
+    (hw : DWf L n u.l1d) (hc : Coh u.l1d.lines mem flat) (a0 : Word) (as : List Word)
+    (hok : loadOk L flat.length (a0 :: as) = true) (hres : ∃ l ∈ u.l1d.lines, l.lo = base L a0.toInt) :
+    ∃ bytes u', getFromL1D u (a0 :: as) = .ok (some bytes, u') ∧ u'.l1i = u.l1i ∧ DWf L n u'.l1d ∧
+      Coh u'.l1d.lines mem flat ∧ u'.l1d.lines.Perm u.l1d.lines ∧
+      (a0 :: as).mapM (Model.Seq.readMem flat) = some bytes := by
+  obtain ⟨bytes, ls, hg, hp, hm⟩ := getAll_hit hL (base L a0.toInt) (a0 :: as) u.l1d hw hc hres (loadOk_spec hok)
+  refine ⟨bytes, { u with l1d := { u.l1d with lines := ls } }, ?_, rfl, hw.perm ls hp, hc.congr_mem (fun y => hp.mem_iff), hp, hm⟩
+  unfold getFromL1D
+  simp only [hg, bind, Except.bind]
+  rfl
+
+/-- miss on the first address: `(nil, false)`, nothing changes -/
+theorem getFromL1D_miss {u : Mmu} (a0 : Word) (as : List Word)
+    (hmiss : ∀ y ∈ u.l1d.lines, y.covers a0.toInt = false) :
+    getFromL1D u (a0 :: as) = .ok (none, u) := by
+  unfold getFromL1D
+  simp only [getAll_miss a0 as hmiss, bind, Except.bind]
+  rfl
+
+/-- `doesExecutionMemoryChangesExistsInL1D` on a well-formed store: `true` iff its line is resident;
+only the order of the lines changes -/
+theorem doesExist_hit {L n : Nat} (hL : 0 < L) {u : Mmu} {mem flat : List Byte}
+    (hw : DWf L n u.l1d) (hc : Coh u.l1d.lines mem flat) (e : Gen.Execution)
+    (hst : storeOk L flat.length e.MemoryChanges = true)
+    (hres : ∃ l ∈ u.l1d.lines, ∀ p ∈ e.MemoryChanges, l.lo = base L p.1.toInt) :
+    ∃ u', doesExecutionMemoryChangesExistsInL1D u e = .ok (true, u') ∧ u'.l1i = u.l1i ∧ DWf L n u'.l1d ∧
+      Coh u'.l1d.lines mem flat ∧ u'.l1d.lines.Perm u.l1d.lines := by
+  obtain ⟨p, ps, hchs, _, _⟩ := storeOk_spec hst
+  obtain ⟨l, hl, hlb⟩ := hres
+  have hlo : loadOk L flat.length (p.1 :: ps.map (·.1)) = true := by
+    have := hst
+    rw [hchs] at this
+    simp only [storeOk, Bool.and_eq_true, List.map_cons] at this
+    exact this.2
+  obtain ⟨bytes, u', hg, h1, h2, h3, h4, _⟩ := getFromL1D_hit hL hw hc p.1 (ps.map (·.1)) hlo
+    ⟨l, hl, hlb p (by rw [hchs]; simp)⟩
+  refine ⟨u', ?_, h1, h2, h3, h4⟩
+  unfold doesExecutionMemoryChangesExistsInL1D
+  rw [hchs]
+  simp only [List.map_cons, hg, bind, Except.bind]
+  rfl
+
+theorem doesExist_miss {u : Mmu} (e : Gen.Execution) (p : Word × Byte) (ps : List (Word × Byte))
+    (hchs : e.MemoryChanges = p :: ps) (hmiss : ∀ y ∈ u.l1d.lines, y.covers p.1.toInt = false) :
+    doesExecutionMemoryChangesExistsInL1D u e = .ok (false, u) := by
+  unfold doesExecutionMemoryChangesExistsInL1D
+  rw [hchs]
+  simp only [List.map_cons, getFromL1D_miss p.1 _ hmiss, bind, Except.bind]
+  rfl
+
+/-! ### flush -/
+
+theorem flushLines_ok {cfg : Config} {L : Nat} (hcfg : cfg.l1DLineSize = L) (hL : 0 < L) {flat : List Byte} :
+    ∀ (ls : List Line) (mem : List Byte) (cyc : Int), (∀ l ∈ ls, LineWf L l) → Coh ls mem flat →
+      ∃ mem', flushLines cfg ls mem cyc = .ok (mem', cyc + ls.length * Gen.Latency.MemoryAccess) ∧ Coh [] mem' flat := by
+  intro ls
+  induction ls with
+  | nil => intro mem cyc _ hc; exact ⟨mem, by simp [flushLines]; rfl, hc⟩
+  | cons l ls ih =>
+    intro mem cyc hwf hc
+    have hl := hwf l (by simp)
+    obtain ⟨mem1, hwb, _, _⟩ := writeToMemory_spec mem l.lo l.data hl.nonneg
+    have hc1 : Coh ([] ++ ls) mem1 flat := Coh.evict (pre := []) (by simpa using hc) hl hwb
+    obtain ⟨mem', hf, hc'⟩ := ih mem1 (cyc + Gen.Latency.MemoryAccess) (fun y hy => hwf y (by simp [hy])) (by simpa using hc1)
+    refine ⟨mem', ?_, hc'⟩
+    have hpos : ¬ (cfg.l1DLineSize ≤ 0) := by rw [hcfg]; omega
+    unfold flushLines
+    simp only [flushLine, hpos, if_false, hwb, bind, Except.bind, hf, List.length_cons]
+    congr 2
+    simp only [Int.natCast_add, Int.natCast_one, Int.add_mul, Int.one_mul]; omega
+
+/-- coherence with no resident line left is equality -/
+theorem Coh.nil_eq {mem flat : List Byte} (h : Coh [] mem flat) : mem = flat := by
+  apply List.ext_getElem?
+  intro i
+  by_cases hi : i < flat.length
+  · exact h.uncached i hi (fun l hl => by cases hl)
+  · rw [List.getElem?_eq_none (by rw [h.len]; omega), List.getElem?_eq_none (by omega)]
+
+/-- **flush makes Memory = view**: after `flush` the memory IS the flat memory; one `MemoryAccess` per line -/
+theorem flush_ok {cfg : Config} {L n : Nat} (hcfg : cfg.l1DLineSize = L) (hL : 0 < L) {u : Mmu} {mem flat : List Byte}
+    (hw : DWf L n u.l1d) (hc : Coh u.l1d.lines mem flat) :
+    flush cfg u mem = .ok (flat, u.l1d.lines.length * Gen.Latency.MemoryAccess) := by
+  obtain ⟨mem', hf, hc'⟩ := flushLines_ok hcfg hL u.l1d.lines mem 0 hw.lines hc
+  unfold flush LineCache.lines
+  rw [hf, hc'.nil_eq]
+  simp
+
 end Proofs.Mmu
